@@ -22,9 +22,13 @@ UpdateSecs == {"modify", "delete"}
 
 (* ------------------------------------------------------------------------ *)
 (* Vocabulary.                                                              *)
-(*   change element   [id, v, vis, m]      vis = Visible flag on input,      *)
+(*   change element   [id, v, vis, m, ts]  vis = Visible flag on input,      *)
 (*                                         m   = unique mark (neutral tag)   *)
-(*   history entry    [v, vis, m]                                            *)
+(*   history entry    [v, vis, m, ts]                                        *)
+(*        ts = abstract timestamp: 0 = the zero time.Time (untimed), n > 0  *)
+(*        = n time units after a base instant.  The property pairs by       *)
+(*        version number only: the Model copies ts through, the Judge never *)
+(*        reads it (see TimeModes for the orderings that are enumerated)    *)
 (*   history          [k, id, fail, vs]    fail = "no": the lookup succeeds; *)
 (*        "other": the history exists (vs) but the lookup fails with an      *)
 (*        error the datasource does not classify as not-found (I/O error,   *)
@@ -42,7 +46,7 @@ UpdateSecs == {"modify", "delete"}
 (*                            code - and the Judge never read it             *)
 (*        idp               = name of the id symbol table the renderer uses  *)
 (*                            (abstract id -> concrete id; see IdProfiles)   *)
-(*   output element   [k, id, v, vis, m]                                     *)
+(*   output element   [k, id, v, vis, m, ts]                                 *)
 (*   action           [t, osm, old, new]   each of osm/old/new the sequence  *)
 (*                                         of output elements in that part   *)
 (*   observation      [err, ek, eid, nodiff, actions]                        *)
@@ -59,7 +63,7 @@ Fails(c, k, id)   == HasEntry(c, k, id) /\ HistRec(c, k, id).fail = "other"
 \* the stored versions of (k, id) - also when the lookup fails; empty when there is no history
 Stored(c, k, id)  == IF HasHist(c, k, id) THEN HistRec(c, k, id).vs ELSE << >>
 
-Out(k, id, e, vis) == [k |-> k, id |-> id, v |-> e.v, vis |-> vis, m |-> e.m]
+Out(k, id, e, vis) == [k |-> k, id |-> id, v |-> e.v, vis |-> vis, m |-> e.m, ts |-> e.ts]
 CreateAct(k, el)   == [t |-> "create", osm |-> <<Out(k, el.id, el, TRUE)>>, old |-> << >>, new |-> << >>]
 UpdateAct(s, k, el, h) ==
   [t |-> s, osm |-> << >>, old |-> <<Out(k, el.id, h, h.vis)>>, new |-> <<Out(k, el.id, el, s = "modify")>>]
@@ -307,6 +311,38 @@ CellMark(s, k)  == 10 * (3 * (SecIdx(s) - 1) + KindIdx(k))
 
 HistSeqs(V) == SetToAllKPermutations(V)        \* every subset of V stored in every order (326 for V = 1 .. 5)
 
+\* --- timestamps ------------------------------------------------------------------------------------------------
+\* Every family below is written without timestamps; Timed(c, tm) stamps all change elements and history entries of a
+\* case according to a time mode (side "el" = change element, "hist" = history entry; v = version, p = position):
+\*   zero      nothing is timed                      mono      later versions are later (10 * v)
+\*   equal     everything at the same instant        inverted  later versions are EARLIER (100 - 10 * v): the version
+\*   histzero  histories untimed, elements mono                 below carries a strictly later timestamp
+\*   elzero    elements untimed, histories inverted  mixed     no relation between version and time
+TimeModes == <<"zero", "mono", "inverted", "equal", "histzero", "elzero", "mixed">>
+TimeOf(tm, side, v, p) ==
+  CASE tm = "zero"     -> 0
+    [] tm = "mono"     -> 10 * v
+    [] tm = "inverted" -> 100 - 10 * v
+    [] tm = "equal"    -> 50
+    [] tm = "histzero" -> (IF side = "hist" THEN 0 ELSE 10 * v)
+    [] tm = "elzero"   -> (IF side = "el" THEN 0 ELSE 100 - 10 * v)
+    [] tm = "mixed"    -> 10 * (((7 * v + 3 * p) % 5) + 1)
+TimedCell(sq, tm) == [j \in 1 .. Len(sq) |-> [id |-> sq[j].id, v |-> sq[j].v, vis |-> sq[j].vis, m |-> sq[j].m,
+                                               ts |-> TimeOf(tm, "el", sq[j].v, j)]]
+TimedSec(sec, tm) == [node |-> TimedCell(sec.node, tm), way |-> TimedCell(sec.way, tm), relation |-> TimedCell(sec.relation, tm)]
+TimedHist(h, tm)  == [k |-> h.k, id |-> h.id, fail |-> h.fail,
+                      vs |-> [j \in 1 .. Len(h.vs) |-> [v |-> h.vs[j].v, vis |-> h.vs[j].vis, m |-> h.vs[j].m,
+                                                         ts |-> TimeOf(tm, "hist", h.vs[j].v, j)]]]
+TimedWorld(w, tm) == [i \in 1 .. Len(w) |-> TimedHist(w[i], tm)]
+Timed(c, tm) ==
+  [ign |-> c.ign, nile |-> c.nile, opt |-> c.opt, idp |-> c.idp, tm |-> tm, hist |-> TimedWorld(c.hist, tm),
+   ch |-> [create |-> TimedSec(c.ch.create, tm), modify |-> TimedSec(c.ch.modify, tm), delete |-> TimedSec(c.ch.delete, tm)]]
+\* the time mode of a static case: rotated over the modes by a key of the case (number of histories, of elements, versions)
+RECURSIVE SumV(_)
+SumV(sq) == IF sq = << >> THEN 0 ELSE Head(sq).el.v + SumV(Tail(sq))
+TimeKey(c) == LET F == Flat(c) IN Len(c.hist) + 3 * Len(F) + SumV(F) + (IF c.ign THEN 1 ELSE 0)
+ModeAt(n)  == TimeModes[(n % Len(TimeModes)) + 1]
+
 \* --- Singles: one element, every history -------------------------------------------------------------------
 OneEl(s, k, el) == [NoChange EXCEPT ![s][k] = <<el>>]
 Singles ==
@@ -342,7 +378,7 @@ CellList == <<<<"create", "node">>, <<"create", "way">>, <<"create", "relation">
               <<"delete", "node">>, <<"delete", "way">>, <<"delete", "relation">>>>
 
 AddEl(ch, s, k, id, v) ==
-  [ch EXCEPT ![s][k] = Append(@, [id |-> id, v |-> v, vis |-> AdvVis(s), m |-> CellMark(s, k) + Len(@) + 1])]
+  [ch EXCEPT ![s][k] = Append(@, [id |-> id, v |-> v, vis |-> AdvVis(s), m |-> CellMark(s, k) + Len(@) + 1, ts |-> 0])]
 
 \* --- Pairs: two elements in every pair of cells (also the same cell), every combination of shapes ------------
 Pairs ==
@@ -434,7 +470,7 @@ HistOf(d, k, id, base, bias) ==
   ELSE <<MkHist(k, id, d[2], base)>>
 RandCase(n) ==
   CHOOSE c \in
-    {[ign |-> o[1], nile |-> o[2], opt |-> o[4], idp |-> (IF o[5] = "neg" /\ ~o[1] THEN "base" ELSE o[5]),
+    {Timed([ign |-> o[1], nile |-> o[2], opt |-> o[4], idp |-> (IF o[5] = "neg" /\ ~o[1] THEN "base" ELSE o[5]),
       hist |-> HistOf(h[1], "node", 1, 100, o[3]) \o HistOf(h[2], "node", 2, 200, o[3]) \o HistOf(h[3], "way", 1, 300, o[3]) \o
                HistOf(h[4], "way", 2, 400, o[3]) \o HistOf(h[5], "relation", 1, 500, o[3]) \o HistOf(h[6], "relation", 2, 600, o[3]),
       ch |-> [create |-> [node |-> CellOf(d[1], "create", "node", o[3]), way |-> CellOf(d[2], "create", "way", o[3]),
@@ -442,14 +478,24 @@ RandCase(n) ==
               modify |-> [node |-> CellOf(d[4], "modify", "node", o[3]), way |-> CellOf(d[5], "modify", "way", o[3]),
                           relation |-> CellOf(d[6], "modify", "relation", o[3])],
               delete |-> [node |-> CellOf(d[7], "delete", "node", o[3]), way |-> CellOf(d[8], "delete", "way", o[3]),
-                          relation |-> CellOf(d[9], "delete", "relation", o[3])]]] :
+                          relation |-> CellOf(d[9], "delete", "relation", o[3])]]], o[6]) :
         o \in {<<RandomElement(BOOLEAN), RandomElement(BOOLEAN), RandomElement(1 .. 3) = 1, RandomElement(OptSets),
-                 RandomElement({"base", "zero", "zero2", "zero3", "big", "neg"})>>},
+                 RandomElement({"base", "zero", "zero2", "zero3", "big", "neg"}),
+                 RandomElement({"zero", "mono", "inverted", "equal", "histzero", "elzero", "mixed"})>>},
         d \in {<<DrawCell(n), DrawCell(n), DrawCell(n), DrawCell(n), DrawCell(n), DrawCell(n), DrawCell(n), DrawCell(n), DrawCell(n)>>},
         h \in {<<DrawHist(n), DrawHist(n), DrawHist(n), DrawHist(n), DrawHist(n), DrawHist(n)>>}} : TRUE
 RandomSeq == [n \in 1 .. NRandom |-> RandCase(n)]
 
-StaticCases == Singles \cup Pairs \cup Houses \cup Failing \cup Faulty \cup Optioned \cup IdTables
+\* --- Timestamps: every time mode x one modified/deleted element with a predecessor (and one without) ------------
+\* WorldHist: <<1, 3>> -> version 2 of <<4, 2, 3>>, <<1, 4>> -> version 3, <<3, 3>> -> version 2 of <<1, 5, 2>>,
+\* <<1, 2>> no earlier version
+Timestamps == IF ~WithFamilies THEN {} ELSE
+  {Timed([ign |-> ign, nile |-> FALSE, opt |-> NoOpt, idp |-> "base", hist |-> WorldHist,
+          ch |-> AddEl(NoChange, s, k, e[1], e[2])], TimeModes[tm]) :
+      tm \in 1 .. Len(TimeModes), s \in UpdateSecs, k \in KindSet, e \in {<<1, 3>>, <<1, 4>>, <<3, 3>>, <<1, 2>>}, ign \in BOOLEAN}
+
+RawStatic   == Singles \cup Pairs \cup Houses \cup Failing \cup Faulty \cup Optioned \cup IdTables
+StaticCases == {Timed(c, ModeAt(TimeKey(c))) : c \in RawStatic} \cup Timestamps
 
 (* ======================================================================== *)
 (* GENERATING MACHINE + SPECIFICATION                                       *)
@@ -466,7 +512,8 @@ Init ==
   \/ StaticInit /\ \E c \in StaticCases : Start(c)
   \/ StaticInit /\ \E c \in {RandCase(n) : n \in 1 .. NRandom} : Start(c)
   \/ /\ BuildMax > 0 /\ phase = "build"
-     /\ inp \in {[ign |-> ign, nile |-> FALSE, opt |-> NoOpt, idp |-> "base", hist |-> w, ch |-> NoChange] : ign \in BOOLEAN, w \in BuildWorlds}
+     /\ inp \in {Timed([ign |-> ign, nile |-> FALSE, opt |-> NoOpt, idp |-> "base", hist |-> w, ch |-> NoChange], tm) :
+                    ign \in BOOLEAN, w \in BuildWorlds, tm \in {"inverted"}}
      /\ pos = <<4, 1, 1>> /\ acts = << >> /\ res = NoRes
 
 \* add one element, cells in non-decreasing order so that every change is built exactly once
